@@ -19,7 +19,7 @@ from typing import Any, TYPE_CHECKING
 
 import numpy as np
 
-from cirq import _compat, linalg, protocols, value
+from cirq import _compat, linalg, protocols, qis, value
 from cirq.ops import linear_combinations, pauli_string_phasor
 
 if TYPE_CHECKING:
@@ -108,10 +108,16 @@ class PauliSumExponential:
         """
         if protocols.is_parameterized(self._exponent):
             raise ValueError("Exponent should not parameterized.")
-        ret = np.ones(1)
-        for pauli_string_exp in self:
-            ret = np.kron(ret, protocols.unitary(pauli_string_exp))
-        return ret
+        # The (commuting) factors may overlap and may list their qubits in any order, so each is
+        # applied to the qubits it acts on within the register given by `self.qubits`.
+        qubits = self.qubits
+        n = len(qubits)
+        state = qis.eye_tensor((2,) * n, dtype=np.complex128)
+        result = protocols.apply_unitaries(
+            list(self), qubits, protocols.ApplyUnitaryArgs(state, np.empty_like(state), range(n))
+        )
+        assert result is not None
+        return result.reshape((2**n, 2**n))
 
     @_compat.cached_method
     def _has_unitary_(self) -> bool:
